@@ -39,6 +39,82 @@ def scen(run, name, streams, hist, sync, rotate_at=0, truncate=False, recycle=0,
                 rotate_every=rotate_every, remove_after=remove_after, nowatch=nowatch, fillers=fillers, lz4=lz4)
 
 
+def perform(ctx, binary, scs, tag="c03"):
+    """Runs the histories on the real file input (child processes, SIGKILL) and lets TLC (FileInputMon) judge the recorded runs."""
+    inp = os.path.join(ctx.scratch, tag + "_in.json")
+    out = os.path.join(ctx.scratch, tag + "_out.json")
+    json.dump(scs, open(inp, "w"))
+    rc, txt = ctx.run_bin(binary, "^TestVerifC03$", env={"VERIF_CASES": inp, "VERIF_OUT": out}, timeout=3000)
+    if rc != 0 or not os.path.exists(out):
+        raise vlib.Infra("C03 harness failed rc=%s:\n%s" % (rc, txt[-3000:]))
+    results = json.load(open(out))
+    by_run = {s["run"]: s for s in scs}
+    trace = os.path.join(ctx.scratch, tag + "_trace.ndjson")
+    shapes = set()
+    with open(trace, "w") as f:
+        for r in results:
+            died = bool(r["exit2"])
+            f.write(json.dumps({"run": r["run"], "lost": r["lost"] or [], "seen": r["streams_seen_before_kill"] or [],
+                                "saved": r["streams_saved_at_kill"] or [], "killed": bool(r["killed"]), "died": died,
+                                "exit": (r["exit2"] + " " + r["stderr"][-300:]) if died else "",
+                                "truncate": bool(by_run[r["run"]]["truncate"])}) + "\n")
+            shapes.add(json.dumps([by_run[r["run"]]["streams"], [h for h in by_run[r["run"]]["hist"] if h[0] in ("kill", "commit", "deliver", "truncate")],
+                                   by_run[r["run"]]["rotate_at"]]))
+    mon = ctx.tlc("FileInputMon", "FileInputMon.cfg", workers=1, files={trace: "trace.ndjson"}, timeout=600, deadlock=False,
+                  name="FileInputMon/trace")
+    rep = [p for p in mon.printed if isinstance(p, dict) and "viol" in p]
+    if not mon.ok or not rep:
+        raise vlib.Infra("trace validation failed:\n%s" % mon.out[-3000:])
+    res_by_run = {r["run"]: r for r in results}
+    recs = []
+    for x in rep[-1]["viol"]:
+        v = x["v"]
+        r = res_by_run[x["run"]]
+        fam = re.sub(r"-\d+$", "", by_run[x["run"]]["name"])
+        pclass = "offset_corruption" if "offset corruption" in r["stderr"] else ("other_panic" if "panic" in r["stderr"] else "")
+        recs.append({"kind": v["kind"], "line": v["id"], "info": v["info"] if v["kind"] != "child_died" else "", "truncate": v["truncate"],
+                     "family": fam, "panic_class": pclass, "scenario": by_run[x["run"]],
+                     "offsets_at_kill": r["offsets_at_kill"], "delivered": r["delivered"], "events": r["events"][-60:], "stderr": r["stderr"][-600:]})
+    return results, recs, shapes
+
+
+def commit_order_stage(ctx):
+    """For C02: the input that keeps per-stream offsets is the judge of its own commit notifications -- jobProvider.commit
+    panics ('offset corruption') when a notification does not advance the offset of its (source, stream).  Histories of
+    FileInput.tla with several streams, killed and restarted while the streams' saved offsets differ (the restarted reader
+    starts at the smallest one and must keep the lines of the streams that are ahead out of the pipeline)."""
+    thorough = ctx.tier == "thorough"
+    binary = ctx.go_test_build("plugin/input/file")
+    scs = []
+    k = 1
+    r = ctx.tlc("FileInput", "FileInput_base.cfg", overrides={"ResidualOnly": "TRUE", "NLines": "4", "M_SkipOnlyOwnStream": "FALSE"}, timeout=600,
+                deadlock=False, name="FileInput/mutant-M_SkipOnlyOwnStream (history for the real input)")
+    if r.ok or r.violated != "AtLeastOnce":
+        raise vlib.Infra("spec mutant M_SkipOnlyOwnStream produced no counterexample (violated=%s)" % r.violated)
+    streams, hist = hist_of(r.trace[-1][1])
+    scs.append(scen(k, "mutant-M_SkipOnlyOwnStream", streams, hist, True))
+    k += 1
+    for ov, cnt in (({"ResidualOnly": "TRUE", "NLines": "5"}, 160 if thorough else 40), ({"ResidualOnly": "TRUE", "NLines": "5", "SyncMode": "FALSE"}, 80 if thorough else 20)):
+        res = ctx.tlc("FileInput", "FileInput_sim.cfg", overrides=ov, workers=1, simulate="num=%d" % cnt, depth=80, seed=ctx.seed + 17,
+                      timeout=300, deadlock=False, check=False, name="FileInput/simulate (several streams)")
+        if res.rc == -9 or res.violated is not None:
+            raise vlib.Infra("simulation of FileInput.tla failed:\n%s" % res.out[-2000:])
+        for p in res.printed:
+            if not (isinstance(p, dict) and "hist" in p) or not any(h[0] == "kill" for h in p["hist"]) or len(set(p["streams"])) < 2:
+                continue
+            scs.append(scen(k, "sim-%d" % k, p["streams"], p["hist"], bool(p["sync"])))
+            k += 1
+    if len(scs) < 5:
+        raise vlib.Infra("too few histories with several streams (%d)" % len(scs))
+    results, recs, shapes = perform(ctx, binary, scs, tag="c02_file")
+    out = [dict(x, kind="input_rejects_commit") for x in recs if x["kind"] == "child_died" and x["panic_class"] == "offset_corruption"]
+    ctx.extra["file_input_commit_order"] = {"histories": len(scs), "kill_restart_cycles": sum(1 for x in results if x["killed"]),
+                                            "lost_lines_not_judged_here": sum(1 for x in recs if x["kind"] == "line_lost")}
+    ctx.evaluations += len(results)
+    ctx.traces_validated += len(results)
+    return out
+
+
 def run(ctx):
     thorough = ctx.tier == "thorough"
     binary = ctx.go_test_build("plugin/input/file")
@@ -211,40 +287,7 @@ def run(ctx):
         n2 = n1 + ctx.rng.randint(2, 4)        # the new file is longer than the stale offset
         scs.append(scen(k, "recycled-inode-%d" % k, ["a"] * (n1 + n2), [], True, recycle=n1))
         k += 1
-    inp = os.path.join(ctx.scratch, "c03_in.json")
-    out = os.path.join(ctx.scratch, "c03_out.json")
-    json.dump(scs, open(inp, "w"))
-    rc, txt = ctx.run_bin(binary, "^TestVerifC03$", env={"VERIF_CASES": inp, "VERIF_OUT": out}, timeout=3000)
-    if rc != 0 or not os.path.exists(out):
-        raise vlib.Infra("C03 harness failed rc=%s:\n%s" % (rc, txt[-3000:]))
-    results = json.load(open(out))
-    by_run = {s["run"]: s for s in scs}
-    trace = os.path.join(ctx.scratch, "c03_trace.ndjson")
-    shapes = set()
-    with open(trace, "w") as f:
-        for r in results:
-            died = bool(r["exit2"])
-            f.write(json.dumps({"run": r["run"], "lost": r["lost"] or [], "seen": r["streams_seen_before_kill"] or [],
-                                "saved": r["streams_saved_at_kill"] or [], "killed": bool(r["killed"]), "died": died,
-                                "exit": (r["exit2"] + " " + r["stderr"][-300:]) if died else "",
-                                "truncate": bool(by_run[r["run"]]["truncate"])}) + "\n")
-            shapes.add(json.dumps([by_run[r["run"]]["streams"], [h for h in by_run[r["run"]]["hist"] if h[0] in ("kill", "commit", "deliver", "truncate")],
-                                   by_run[r["run"]]["rotate_at"]]))
-    mon = ctx.tlc("FileInputMon", "FileInputMon.cfg", workers=1, files={trace: "trace.ndjson"}, timeout=600, deadlock=False,
-                  name="FileInputMon/trace")
-    rep = [p for p in mon.printed if isinstance(p, dict) and "viol" in p]
-    if not mon.ok or not rep:
-        raise vlib.Infra("trace validation failed:\n%s" % mon.out[-3000:])
-    res_by_run = {r["run"]: r for r in results}
-    recs = []
-    for x in rep[-1]["viol"]:
-        v = x["v"]
-        r = res_by_run[x["run"]]
-        fam = re.sub(r"-\d+$", "", by_run[x["run"]]["name"])
-        pclass = "offset_corruption" if "offset corruption" in r["stderr"] else ("other_panic" if "panic" in r["stderr"] else "")
-        recs.append({"kind": v["kind"], "line": v["id"], "info": v["info"] if v["kind"] != "child_died" else "", "truncate": v["truncate"],
-                     "family": fam, "panic_class": pclass, "scenario": by_run[x["run"]],
-                     "offsets_at_kill": r["offsets_at_kill"], "delivered": r["delivered"], "events": r["events"][-60:], "stderr": r["stderr"][-600:]})
+    results, recs, shapes = perform(ctx, binary, scs)
     ctx.classify(recs)
     ctx.evaluations = len(results)
     ctx.traces_validated = len(results)
